@@ -55,7 +55,8 @@ def via_constraints(name, kw, X, y):
         # the lda basis is built from (X, y) by the supervised class itself
         sup = fits.make_estimator(name, kw)
         sup.preprocessor_ = None
-        basis, n_basis = sup._generate_bases_LDA(X, y)
+        # ... from the labelled points alone (documented pipeline: unlabelled points take no part)
+        basis, n_basis = sup._generate_bases_LDA(X[np.asarray(y) >= 0], np.asarray(y)[np.asarray(y) >= 0])
         base.set_params(basis=basis, n_basis=None)
         base._fit(X[trip], basis, n_basis)
       else:
@@ -138,6 +139,11 @@ def run(ctx):
         elif name == 'SCML_Supervised':
           kw.update(k_genuine=int(rng.integers(1, 4)), k_impostor=int(rng.integers(1, 5)),
                     basis=['lda', 'triplet_diffs'][variant])
+          if variant == 0:
+            # more LDA bases than 2 * (labelled samples) * min(n_classes - 1, d) - 1 is a documented ValueError
+            nk = int(np.sum(y >= 0))
+            cap = nk * 2 * min(len(np.unique(y[y >= 0])) - 1, X.shape[1]) - 1
+            kw['n_basis'] = int(min(kw.get('n_basis') or cap, cap))
         elif layout == 'full' and variant == 0:
           kw['n_constraints'] = None      # the documented default 20 * n_classes^2 (fully labelled data only)
         else:
@@ -184,6 +190,26 @@ def run(ctx):
               'unknown' if layout != 'full' else 'complete'), inp,
               observed=np.asarray(sup.components_).tolist(), expected=np.asarray(base.components_).tolist())
         ctx.sample(dict(estimator=name, layout=layout, y=y.tolist()[:12], params={k: repr(v)[:30] for k, v in kw.items()}), limit=4)
+        # "the learned metric is the one obtained from the labelled points' constraints alone": the unlabelled rows may hold
+        # anything.  (Dropping those rows is NOT compared: the helper draws among index sets, whose iteration order depends on
+        # the index values, so another index frame legitimately gives other, equally valid, constraints.)
+        if layout != 'full':
+          unk = y < 0
+          X2 = X.copy()
+          X2[unk] = fits.grid(X[unk] * 3.0 + rng.standard_normal((int(unk.sum()), X.shape[1])) * 5.0, 4)
+          ctx.count('unlabelled_irrelevant', 1)
+          try:
+            with warnings.catch_warnings():
+              warnings.simplefilter('ignore')
+              moved = fits.make_estimator(name, kw).fit(X2, y)
+          except Exception as ex:
+            ctx.fail_input('unlabelled_irrelevant', '%s: fit with other unlabelled rows raises %s' % (name, type(ex).__name__),
+                           inp, observed=str(ex)[:200])
+          else:
+            tolc = 1e-9 * (1 + np.abs(sup.components_).max())
+            if moved.components_.shape != sup.components_.shape or np.abs(moved.components_ - sup.components_).max() > tolc:
+              ctx.fail_input('unlabelled_irrelevant', name + ': changing the coordinates of the unlabelled points changes the learned metric', inp,
+                             observed=np.asarray(moved.components_).tolist(), expected=np.asarray(sup.components_).tolist())
         # metric obtained from the labelled points alone: drop the unknown rows, replay the same constraints as coordinates
         if layout != 'full' and name in PAIRS:
           from metric_learn.constraints import Constraints, wrap_pairs
